@@ -7,6 +7,7 @@ import (
 	"fmt"
 	"strings"
 
+	"github.com/decred/dcrd/dcrec/secp256k1/v4"
 	crypto "github.com/libp2p/go-libp2p/core/crypto"
 	mbase "github.com/multiformats/go-multibase"
 	"github.com/multiformats/go-multicodec"
@@ -60,7 +61,7 @@ func Parse(str string) (DID, error) {
 		return Undef, err
 	}
 	switch multicodec.Code(code) {
-	case Ed25519, P256, Secp256k1, RSA:
+	case Ed25519, P256, P384, P521, Secp256k1, RSA:
 		return DID{bytes: string(bytes), code: multicodec.Code(code)}, nil
 	default:
 		return Undef, fmt.Errorf("unsupported did:key multicodec: 0x%x", code)
@@ -97,6 +98,10 @@ func (d DID) PubKey() (crypto.PubKey, error) {
 	}
 
 	codeSize := varint.UvarintSize(uint64(d.code))
+	if d.code == Secp256k1 && len(d.bytes)-codeSize != secp256k1.PubKeyBytesLenCompressed {
+		// only the compressed form identifies the key (one key, one DID)
+		return nil, fmt.Errorf("secp256k1 public key must be in compressed form")
+	}
 	return unmarshaler([]byte(d.bytes)[codeSize:])
 }
 
@@ -109,6 +114,9 @@ func (d DID) String() string {
 func ecdsaPubKeyUnmarshaler(curve elliptic.Curve) crypto.PubKeyUnmarshaller {
 	return func(data []byte) (crypto.PubKey, error) {
 		x, y := elliptic.UnmarshalCompressed(curve, data)
+		if x == nil || y == nil {
+			return nil, fmt.Errorf("invalid compressed point")
+		}
 
 		ecdsaPublicKey := &ecdsa.PublicKey{
 			Curve: curve,
